@@ -14,7 +14,7 @@
 static struct kernel_ghost
 {
     int fd_open;      /* the descriptor this harness handed out is currently open */
-    int fd;           /* its number (>= 3)                                         */
+    int fd;           /* its number (>= 0)                                         */
     int n_open, n_close, n_flock, n_trunc, n_pwrite;
     int foreign_close; /* close() was called on a number we do not own           */
     int foreign_write;
@@ -212,7 +212,7 @@ kernel_reset(void)
 {
     __builtin_memset(&k, 0, sizeof(k));
     k.fd = nd_int();
-    VASSUME(k.fd >= 3);
+    VASSUME(k.fd >= 0); /* any descriptor number the kernel may hand out, 0 included (a process started with stdin closed) */
     k.o = nd_ulong();
     g_errno = 0;
 }
